@@ -473,7 +473,51 @@ async def x_overlapping_sessions(loop):
     return bad
 
 
-EXTRAS = {"C03": [x_two_servers, x_table_changed], "C02": [x_base_changed], "C10": [x_second_manager], "C05": [x_overlapping_sessions]}
+async def x_restart(loop):
+    """the same Server object is closed and started again: every backend still holds what it held"""
+    seen = {}
+    for backend in ("memory", "pathio"):
+        wd = W.World(loop, [W.UserSpec("bob", None)], backend=backend)
+        await wd.start()
+        rec = []
+        try:
+            wd.set_tree(TREE[:6])
+            c = await wd.raw_client()
+            await _line(wd, c, "USER bob")
+            await _passive(wd, c)
+            await W.run_line(wd, c, b"STOR /run1.bin", b"first run")
+            await _line(wd, c, "MKD /made-in-run-1")
+            await _line(wd, c, "QUIT")
+            await wd.server.close()
+            await loop.settle()
+            await wd.server.start(wd.net.host, wd.port)
+            c = await wd.raw_client()
+            rec.append(await _line(wd, c, "USER bob"))
+            await _passive(wd, c)
+            codes, _, out, _ = await W.run_line(wd, c, b"RETR /run1.bin")
+            rec.append((codes, out))
+            rec.append(await _line(wd, c, "MKD /made-in-run-1"))
+            rec.append(await _line(wd, c, "MLST /d/g.txt"))
+            await _passive(wd, c)
+            codes, _, out, listing = await W.run_line(wd, c, b"MLSD /")
+            rec.append((codes, sorted(listing or [])))
+            await _passive(wd, c)
+            await W.run_line(wd, c, b"APPE /run1.bin", b"+second")
+            await _line(wd, c, "QUIT")
+            rec.append(wd.tree())
+        finally:
+            try:
+                await wd.stop()
+            except Exception:
+                wd.finish()
+        seen[backend] = rec
+    if seen["memory"] != seen["pathio"]:
+        d = [(a, b) for a, b in zip(seen["memory"], seen["pathio"]) if a != b][:2]
+        return ["a Server object closed and started again, a session in each run: MemoryPathIO and PathIO differ in the second run: memory %r, pathio %r" % ([x[0] for x in d], [x[1] for x in d])]
+    return []
+
+
+EXTRAS = {"C03": [x_two_servers, x_table_changed], "C02": [x_base_changed], "C10": [x_second_manager], "C05": [x_overlapping_sessions], "C18": [x_restart], "C12": [x_restart]}
 
 
 def _extra_job(fn):
